@@ -350,11 +350,11 @@ def gen_executions(ctx):
         first = ("new_from_ptr", [t]) if n % 2 else ("new_from_buff", [t, rnd.choice([0, n, n + 100])])
         execs.append([first] + gen_ops(rnd, m, 6 if quick else 15, small=False))
     # 3. long histories on small and medium values
-    for k in range(10 if quick else 80):
+    for k in range(16 if quick else 200):
         m = Mirror()
         t = rnd_bytes(rnd, rnd.choice([0, 1, 3, 30, 300]))
         m.a = list(t)
-        execs.append([("new_from_ptr", [t])] + gen_ops(rnd, m, 100 if quick else 250, small=True))
+        execs.append([("new_from_ptr", [t])] + gen_ops(rnd, m, 120 if quick else 300, small=True))
     return execs
 
 
